@@ -34,8 +34,8 @@ class Check(CheckBase):
             'keys, passwords) is searched raw, hex and in all three base64 alignments in every object NAME and BODY that '
             'ever crossed the backend boundary (not only the final store), in every serialized key and in all stdout/stderr; '
             '(2) structure - an independent reader re-serialises every object to the same bytes, authenticates every blob '
-            'under the documented key and recomputes every name as MAC(k,digest)/MAC(k,MAC(k,digest)); (3) nonce monitor on '
-            'AEADCipherAdapterMixin.encrypt across all Repository objects of the history, cross-checked with the nonces read '
+            'under the documented key and recomputes every name as MAC(k,digest)/MAC(k,MAC(k,digest)); (3) nonce monitor at '
+            'the cryptography library\'s AEAD encrypt calls across all Repository objects of the history, cross-checked with the nonces read '
             'back from stored blobs grouped by key; (4) objects holding all-zero plaintext must not deflate. '
             'class = (cipher, hash, key-graph class, repo-object lifetime)')
     assumptions = ['no claim about side channels (sizes, timing)', '-v/-vv logging prints secrets by design and is not "written to the '
@@ -88,19 +88,56 @@ class Check(CheckBase):
             violations.append({'what': what, 'mechanism': None, 'witness': dict(w, settings=case['settings'], graph=graph)})
 
         # -- nonce monitor (I7) --------------------------------------------------------------------------------
+        # at the boundary of the cryptography library (whatever replicat's adapters look like inside): every AEAD
+        # object the history creates is a recording stand-in for the real one
         seen_nonces, enc_calls = {}, [0]
-        orig_encrypt = adapters.AEADCipherAdapterMixin.encrypt
+        from cryptography.hazmat.primitives.ciphers import aead as _aead
+        real_aead = {n: getattr(_aead, n) for n in ('AESGCM', 'ChaCha20Poly1305', 'AESCCM', 'AESOCB3', 'AESSIV', 'AESGCMSIV')
+                     if hasattr(_aead, n)}
 
-        def encrypt(self_, data, key):
-            out = orig_encrypt(self_, data, key)
-            enc_calls[0] += 1
-            k = (bytes(key), bytes(out[:self_._nonce_bytes]))
-            if k in seen_nonces:
-                viol('two encryptions under one key used the same nonce', nonce=k[1].hex(),
-                     first_len=seen_nonces[k], second_len=len(data))
-            seen_nonces[k] = len(data)
-            return out
-        adapters.AEADCipherAdapterMixin.encrypt = encrypt
+        def recording(real):
+            class Recording:
+                def __init__(self, key, *a, **kw):
+                    self._vf_key, self._vf_real = bytes(key), real(key, *a, **kw)
+
+                def encrypt(self, nonce, data, associated_data=None):
+                    out = self._vf_real.encrypt(nonce, data, associated_data)
+                    enc_calls[0] += 1
+                    k = (self._vf_key, bytes(nonce))
+                    if k in seen_nonces:
+                        viol('two encryptions under one key used the same nonce', nonce=k[1].hex(),
+                             first_len=seen_nonces[k], second_len=len(data))
+                    seen_nonces[k] = len(data)
+                    return out
+
+                def decrypt(self, nonce, data, associated_data=None):
+                    return self._vf_real.decrypt(nonce, data, associated_data)
+
+                generate_key = staticmethod(getattr(real, 'generate_key', None))
+            Recording.__name__ = Recording.__qualname__ = real.__name__
+            return Recording
+        stand_ins = {n: recording(c) for n, c in real_aead.items()}
+        patched_modules = []
+
+        def install_aead():
+            import sys as _sys
+            for n, c in stand_ins.items():
+                setattr(_aead, n, c)
+            # names bound by `from ... import AESGCM` inside replicat
+            for mname, mod in list(_sys.modules.items()):
+                if mod is not None and (mname == 'replicat' or mname.startswith('replicat.')):
+                    for attr, val in list(vars(mod).items()):
+                        for n, c in real_aead.items():
+                            if val is c:
+                                setattr(mod, attr, stand_ins[n])
+                                patched_modules.append((mod, attr, c))
+
+        def restore_aead():
+            for n, c in real_aead.items():
+                setattr(_aead, n, c)
+            for mod, attr, c in patched_modules:
+                setattr(mod, attr, c)
+        install_aead()
         rep.RECORD = []
         key_texts = []
 
@@ -198,12 +235,12 @@ class Check(CheckBase):
             asyncio.run(go())
         except Exception as e:
             import traceback
-            adapters.AEADCipherAdapterMixin.encrypt = orig_encrypt
+            restore_aead()
             rep.RECORD = None
             world.close()
             return {'verdict': 'inconclusive', 'note': 'history failed: ' + traceback.format_exc()[-2000:], 'classes': [],
                     'counters': {}}
-        adapters.AEADCipherAdapterMixin.encrypt = orig_encrypt
+        restore_aead()
         captured, rep.RECORD = rep.RECORD, None
         counters['encrypt_calls'] = enc_calls[0]
 
